@@ -269,4 +269,38 @@ theorem inv_crash_remove_counterexample : ¬ FullStatementCrashRemove := by
   rw [hd] at h1
   cases h1
 
+/-! ## D. Concurrent callers
+
+The model's `addGroup` is one atomic step (check, then `save`). The real `AddGroup` earns that by
+taking the chain lock before it reads `lastGroup` (`Props/C19Facts.lean: lock_discipline`, checked
+against the source on every run; the harness also races two real `AddGroup` calls and requires a
+sequential explanation). The two theorems below say what atomicity buys. -/
+
+/-- Sequentially, of two `AddGroup`s naming the same predecessor only the first is accepted. -/
+theorem second_add_same_pre_rejected {l : List Group} {c : Chain} (r : Rep l c) (gA gB : Group)
+    (hA : addCheck c gA = .ok) (hpre : gB.pre = gA.pre) : addCheck (save c gA) gB ≠ .ok := by
+  intro hB
+  obtain ⟨h1, _, h3⟩ := addCheck_ok hA
+  obtain ⟨_, _, h3'⟩ := addCheck_ok hB
+  have hlast : (save c gA).last.id = gA.id := rfl
+  rw [hlast, hpre, ← h3] at h3'
+  -- gA.id = c.last.id, but gA.id is not stored while the last group is
+  have := r.stored c.last r.last_mem
+  rw [← h3'] at this
+  simp [shas, this] at h1
+
+/-- If both calls run their checks against the same state and then both `save` (the lock taken
+    only around `save`), the result need not represent any list. -/
+def FullStatementSplitAdd : Prop :=
+  ∀ (l : List Group) (c : Chain) (gA gB : Group), Rep l c → IdOK gA.id → IdOK gB.id → gA.id ≠ gB.id →
+    addCheck c gA = .ok → addCheck c gB = .ok → ∃ l', Rep l' (save (save c gA) gB)
+
+theorem split_add_counterexample : ¬ FullStatementSplitAdd := by
+  intro h
+  obtain ⟨l', r'⟩ := h [g0] c1 gA gB rep_c1 (by simp [IdOK, gA, cntKey]) (by simp [IdOK, gB, cntKey])
+    (by decide) (by decide) (by decide)
+  have := rep_count_eq_iter r'
+  revert this
+  decide
+
 end Rangers.Props.C19
